@@ -173,7 +173,7 @@ func toDrummerPBShardInfo(cil []clusterInfo) []*pb.ShardInfo {
 		pbv := &pb.ShardInfo{
 			ShardId:           v.ShardID,
 			ReplicaId:         v.ReplicaID,
-			IsLeader:          v.IsLeader,
+			IsLeader:          v.LeaderID != 0 && v.LeaderID == v.ReplicaID,
 			Replicas:          v.Replicas,
 			ConfigChangeIndex: v.ConfigChangeIndex,
 			Incomplete:        incomplete,
